@@ -1,7 +1,8 @@
 (* Model for C08, whole schemas without references: the Schema Object the converter builds for a tree of literal, array
    and object nodes (openapi/internal/jsoac: node.go, primitive.go, array.go, array_items.go, object.go,
    object_properties.go, additional_properties.go), and the meaning of its keywords on JSON values.
-   Outside the model: `or`, type references, key shortcuts, allOf, additionalProperties naming a user type.  No proofs. *)
+   `or` over built-in types and rule-sets is modelled on scalar examples (or.go, ast_node.go).
+   Outside the model: type references, key shortcuts, allOf, additionalProperties naming a user type.  No proofs. *)
 From Coq Require Import List ZArith NArith Bool.
 From JS Require Import Base.Res Spec.Decimal Model.Number Model.EnumParse Model.RuleSem Model.OasSem Model.OasLeaf.
 Import ListNotations.
@@ -10,20 +11,36 @@ Local Open Scope Z_scope.
 (* additionalProperties as written on an object (absent = false) *)
 Inductive apmode := APFalse | APAny | APType (t : otype).
 
+(* an alternative of an `or` rule: a built-in scalar type with its rules (a bare name has none; `any`), or the names
+   "object" / "array" *)
+Inductive oralt := OALeaf (l : leaf) | OAObject | OAArray.
+
 (* a schema: the example tree with the rules of every node; keys are the decoded key texts *)
 Inductive snode :=
 | SLeaf (ex : bytes) (l : leaf)
+| SOr (ex : bytes) (alts : list oralt) (nullable : bool)              (* a scalar example with an `or` rule *)
 | SArr (items : list snode) (mn mx : option Z) (nullable : bool)
 | SObj (members : list (bytes * (bool * snode))) (ap : apmode) (nullable : bool).     (* key, optional, value *)
 
 Inductive otree :=
 | OLeaf (o : oasx)
+| OAnyOf (alts : list otree) (nullable : bool)
 | OArr (items : list otree) (mn mx : option Z) (nullable : bool)      (* items: {} / the schema / anyOf of the schemas *)
 | OObj (props : list (bytes * otree)) (required : list bytes) (ap : apmode) (nullable : bool).
 
 Fixpoint to_otree (n : snode) : otree :=
   match n with
   | SLeaf ex l => OLeaf (to_oasx ex l)
+  | SOr ex alts nu =>
+    match lit_kind ex with
+    | KNull => OLeaf (mk_oasx None None None None None None None nu)      (* a null example is a Null node: the `or` rule is not converted *)
+    | _ =>
+    OAnyOf (map (fun a => match a with
+                          | OALeaf l => OLeaf (to_oasx_alt ex l)
+                          | OAObject => OObj [] [] APFalse false
+                          | OAArray => OArr [] None (Some 0) false
+                          end) alts) nu
+    end
   | SArr items mn mx nu =>
     OArr (map to_otree items) (int64_opt mn) (match items with [] => Some 0 | _ => int64_opt mx end) nu
   | SObj ms ap nu =>
@@ -37,6 +54,7 @@ Inductive jval := JLit (lit : bytes) | JArr (items : list jval) | JObj (members 
 Fixpoint example (n : snode) : jval :=
   match n with
   | SLeaf ex _ => JLit ex
+  | SOr ex _ _ => JLit ex
   | SArr items _ _ _ => JArr (map example items)
   | SObj ms _ _ => JObj (map (fun m => (fst m, example (snd (snd m)))) ms)
   end.
@@ -55,6 +73,8 @@ Definition ap_ok (ap : apmode) (v : jval) : Prop :=
 (* validity of a JSON value against the Schema Object (OpenAPI 3.0: nullable admits null next to the rest) *)
 Inductive tvalid : otree -> jval -> Prop :=
 | tv_leaf o v : jx_valid o v -> tvalid (OLeaf o) (JLit v)
+| tv_any_null alts : tvalid (OAnyOf alts true) (JLit w_null_lit)
+| tv_any alts nu a v : In a alts -> tvalid a v -> tvalid (OAnyOf alts nu) v
 | tv_arr_null items mn mx : tvalid (OArr items mn mx true) (JLit w_null_lit)
 | tv_obj_null props req ap : tvalid (OObj props req ap true) (JLit w_null_lit)
 | tv_arr items mn mx nu vs :
